@@ -777,7 +777,12 @@ impl World {
                             }
                             Some(None) => "bad-op".to_string(),
                             None => {
-                                self.hs.insert(a, HS::Dead);
+                                // soak mode: the graph stays in use in the state the panicking merge left behind
+                                if self.soak {
+                                    self.soaked.insert(a);
+                                } else {
+                                    self.hs.insert(a, HS::Dead);
+                                }
                                 "panic".to_string()
                             }
                         }
